@@ -47,11 +47,9 @@ pub async fn on_did_change_watched_files(
                     continue;
                 }
                 let config_path = uri_to_file_path(&file_event.uri).unwrap();
-                context
-                    .workspace_manager()
-                    .read()
-                    .await
-                    .add_update_emmyrc_task(context.clone(), config_path);
+                // `workspace` is already read-locked: re-acquiring it here would self-deadlock as
+                // soon as a writer queues in between (tokio's RwLock is fair)
+                workspace.add_update_emmyrc_task(context.clone(), config_path);
             }
             None => {}
         }
